@@ -33,6 +33,10 @@ structure Issued where
   policyAsked : Bool := false          -- the storage policy was consulted, about this exchange subject / actor:
   exchangeSubject : String := ""
   actor : String := ""
+  -- what the issued token ITSELF carries when it is self-contained (a JWT access token, an ID token): its `sub` and `act.sub` claims
+  selfContained : Bool := false
+  tokenSubject : String := ""
+  tokenActor : String := ""
   deriving Repr, Inhabited
 
 def supported : List String :=
@@ -48,6 +52,13 @@ def expectedSubject (p : Presented) : String :=
   match p.scopes.find? (fun s => Go.hasPrefix s "custom_scope:impersonate:") with
   | some s => String.ofList (s.toList.drop "custom_scope:impersonate:".length)
   | none => p.subjectSubject
+
+/-- the actor the storage policy decides: delegation (an actor token was presented) - the identity resolved for the actor role;
+    impersonation (the policy's scope, no actor token) - the original subject, on whose token the exchange rests; otherwise none -/
+def expectedActor (p : Presented) : String :=
+  if p.actorGiven then p.actorSubject
+  else if p.scopes.any (fun s => Go.hasPrefix s "custom_scope:impersonate:") then p.subjectSubject
+  else ""
 
 def judge (cfg : C05.Cfg) (now : Int) (cred : C04.Presented) (p : Presented) (obs : Option Issued) : Option String :=
   match obs with
@@ -81,6 +92,9 @@ def judge (cfg : C05.Cfg) (now : Int) (cred : C04.Presented) (p : Presented) (ob
         else some "issued_token_type-not-issuable"
       if contents.isSome then contents
       else if o.subject != expectedSubject p then some "tokens:subject"
+      -- a self-contained token carries the subject and the ACTOR the storage policy decided
+      else if o.selfContained && o.tokenSubject != expectedSubject p then some "tokens:subject-claim"
+      else if o.selfContained && o.tokenActor != expectedActor p then some "tokens:actor"
       else if o.scopes != p.scopes.filter (· != "address") then some "tokens:scopes"
       else if p.requestedType != "" && o.issuedTokenType != p.requestedType then some "issued-type-differs-from-requested"
       -- the identities are the ones resolved FOR THAT ROLE, and they are what the storage policy was asked about
